@@ -144,7 +144,7 @@ def run(ctx):
                 ctx.event('law-object:table-reassigned')
             law = SHARED_LAW[0]
         else:
-            law = gen.build_law(lw, lc)
+            law = gen.build_law(lw, lc, wav_unit=[None, u.nm, u.AA, u.cm][(ip // 2) % 4])          # the law's wavelengths may be tabulated in any length unit
         k = O.ext_pattern(lw, lc, wav)
         if np.ptp(k) < 1e-3:
             ctx.rmdir(d)
